@@ -325,6 +325,24 @@ pub fn run(cfg: &Cfg) -> i32 {
                     }
                 }
             }
+            // a constant defined again (in a later block) with a value that is equal but carries other tags
+            // means the later value: `c` is what was written last, tags included
+            for (first, second) in [("255", "255 ^hex"), ("255 ^hex", "255"), ("[ 1 2 ]", "[ 1 2 ] 7 \"t\" insert-tag"), ("\"s\"", "\"s\" 1 \"n\" insert-tag")] {
+                let a_src = format!("#( {} const c #) #( {} const c #) c", first, second);
+                let b_src = second.to_string();
+                n_const += 1;
+                let run = |src: &str| -> Option<String> {
+                    let mut xs = base.clone();
+                    match guarded(|| xs.eval(src)) {
+                        Ok(Ok(())) => xs.get_data(0).map(render),
+                        _ => None,
+                    }
+                };
+                let (a, b) = (run(&a_src), run(&b_src));
+                if a != b || a.is_none() {
+                    rep.report_w("const-differs:redefined-with-other-tags", a_src.len() as u64, || jo(vec![("with_const", js(a_src.clone())), ("inlined", js(b_src.clone())), ("const_gives", js(format!("{:?}", a))), ("inlined_gives", js(format!("{:?}", b)))]));
+                }
+            }
             // after the block: the constant exists, the helper word does not
             let mut xs = base.clone();
             let before: Vec<String> = xs.word_list().iter().map(|s| s.to_string()).collect();
@@ -466,6 +484,40 @@ pub fn run(cfg: &Cfg) -> i32 {
         }
         seal_classes.merge(&local);
     });
+
+    // ---------------- (2b) a block submitted while a program of the surrounding interpreter is suspended inside a
+    // counted loop does not see that loop: the counter words fail in it as they do in a fresh interpreter
+    {
+        for k in 3..9usize {
+            let mut xs = boot();
+            let _ = xs.set_insn_limit(Some(5000));
+            let ok = matches!(guarded(|| -> Xresult {
+                xs.compile("105 100 do I drop loop")?;
+                for _ in 0..k {
+                    xs.next()?;
+                }
+                OK
+            }), Ok(Ok(())));
+            if !ok {
+                continue;
+            }
+            for blk in ["#( I #)", "#( 1 0 do J loop #)", ": sw #( I #) ;"] {
+                for via in ["eval", "compile"] {
+                    let mut y = xs.clone();
+                    let r = guarded(|| if via == "eval" { y.eval(blk) } else { y.compile(blk) });
+                    n_seal.fetch_add(1, Ordering::Relaxed);
+                    let mut f = boot();
+                    let rf = guarded(|| if via == "eval" { f.eval(blk) } else { f.compile(blk) });
+                    let (a, b) = (r.map(|r| res_kind(&r)), rf.map(|r| res_kind(&r)));
+                    if a != b {
+                        rep.report_w("seal:sees-outer-loop", (k * 100 + blk.len()) as u64, || {
+                            jo(vec![("kind", js("sealing-suspended-loop")), ("calls", J::A(vec![js("compile 105 100 do I drop loop"), js(format!("next() x {}", k)), js(format!("{} {}", via, blk))])), ("result", js(format!("{:?}", a))), ("in_a_fresh_interpreter", js(format!("{:?}", b)))])
+                        });
+                    }
+                }
+            }
+        }
+    }
 
     // ---------------- (4) compile is pure
     let n_pure = AtomicU64::new(0);
